@@ -327,6 +327,43 @@ def exSel : List Call :=
 
 example : SaveOk exSel ∧ NoStale 5 exSel ∧ SnapKept 5 exSel ∧ ¬ Mismatch (5, 1) exSel ∧ (5, 1) ∈ savedSnaps exSel := by decide
 
+theorem exSel_fits : ∀ c ∈ exSel, c.Fits := by
+  intro c hc
+  simp only [exSel, List.mem_cons, List.not_mem_nil, or_false] at hc
+  have hsave : ∀ (st : HardState) (ents : List Entry), HSOk st → (∀ e ∈ ents, ∃ t i, e = en t i ∧ t < 2 ^ 64 ∧ i < 2 ^ 64) →
+      (Call.save st ents).Fits := by
+    intro st ents h1 h2
+    refine ⟨h1, fun e he => ?_⟩
+    obtain ⟨t, i, rfl, ht, hi⟩ := h2 e he
+    exact en_fits t i ht hi
+  have hsnap : ∀ (ix tm : Nat), ix < 2 ^ 64 → tm < 2 ^ 64 → (marshalWSnap ⟨ix, tm, some []⟩).length < 2 ^ 55 →
+      (Call.snap ⟨ix, tm, some []⟩).Fits :=
+    fun ix tm h1 h2 h3 => ⟨⟨h1, h2, fun d hd => by cases hd; decide⟩, h3⟩
+  rcases hc with rfl | rfl | rfl | rfl | rfl | rfl
+  · exact hsave _ _ ⟨by decide, by decide, by decide⟩ (fun e he => by
+      simp only [List.mem_cons, List.not_mem_nil, or_false] at he
+      rcases he with rfl | rfl <;> exact ⟨_, _, rfl, by decide, by decide⟩)
+  · exact hsave _ _ ⟨by decide, by decide, by decide⟩ (fun e he => by
+      simp only [List.mem_cons, List.not_mem_nil, or_false] at he
+      rcases he with rfl | rfl <;> exact ⟨_, _, rfl, by decide, by decide⟩)
+  · exact hsnap 4 1 (by decide) (by decide) (by decide +kernel)
+  · exact hsave _ _ ⟨by decide, by decide, by decide⟩ (fun e he => by
+      simp only [List.mem_cons, List.not_mem_nil, or_false] at he
+      subst he; exact ⟨_, _, rfl, by decide, by decide⟩)
+  · exact hsnap 5 1 (by decide) (by decide) (by decide +kernel)
+  · exact hsave _ _ ⟨by decide, by decide, by decide⟩ (fun e he => by
+      simp only [List.mem_cons, List.not_mem_nil, or_false] at he
+      subst he; exact ⟨_, _, rfl, by decide, by decide⟩)
+
+/-- all hypotheses of `readAll_selected_entries` hold for `exSel` at its last snapshot -/
+example : ∃ fs, Driver.selectFiles ((Writer.create 128 none).calls exSel).flush.files 5 = some fs ∧
+    (readAll false (5, 1) fs).ents = (refLog exSel).filter (fun e => e.index > 5) ∧
+    (readAll false (5, 1) fs).state = refState exSel ∧ (readAll false (5, 1) fs).metadata = none ∧
+    (readAll false (5, 1) fs).err = none :=
+  readAll_selected_entries 128 (show 128 % 8 = 0 by decide) none (show ((none : Option Bytes).getD []).length < 2 ^ 55 by decide)
+    exSel exSel_fits (show SaveOk exSel by decide) (5, 1) (show NoStale 5 exSel by decide) (show SnapKept 5 exSel by decide)
+    (show ¬ Mismatch (5, 1) exSel by decide) (show (5, 1) ∈ savedSnaps exSel by decide) false
+
 /-- here `selectWALFiles` drops the first of the three files (they are named index 0, 5, 7), and `ReadAll` still returns entry 6 -/
 example : (Driver.selectFiles ((Writer.create 128 none).calls exSel).flush.files 5).map List.length = some 2 ∧
     ((Writer.create 128 none).calls exSel).flush.files.length = 3 ∧
